@@ -58,3 +58,68 @@ package extendeddaemonsetreplicaset
 //@   ensures [C12] only-reads: forall k int :: lognew(k) ==> logverb(k) == "List" || logverb(k) == "Get"
 //@   loop 1 invariant true
 //@   loop 2 invariant true
+//@
+//@ import v1 "github.com/DataDog/extendeddaemonset/api/v1alpha1"
+//@ import conditions "github.com/DataDog/extendeddaemonset/controllers/extendeddaemonsetreplicaset/conditions"
+//@ import strategy "github.com/DataDog/extendeddaemonset/controllers/extendeddaemonsetreplicaset/strategy"
+//@
+//@ func createPods
+//@   trusted
+//@   logs
+//@   modifies nothing
+//@   ensures only-creates: forall k int :: lognew(k) ==> logverb(k) == "Create"
+//@   ensures none-when-empty: len(podsToCreate) == 0 ==> loglen() == old(loglen())
+//@ func deletePods
+//@   trusted
+//@   logs
+//@   modifies nothing
+//@   ensures only-deletes: forall k int :: lognew(k) ==> logverb(k) == "Delete"
+//@   ensures none-when-empty: len(nodes) == 0 ==> loglen() == old(loglen())
+//@
+//@ func retrieveOwnerReference
+//@   pure
+//@   requires obj != nil
+//@   loop 1 invariant true
+//@
+//@ func (*Reconciler).retrievedReplicaSet
+//@   logs
+//@   requires r != nil && r.client != nil
+//@   modifies nothing
+//@   ensures !result1 ==> result != nil && fresh(result)
+//@   ensures only-reads: forall k int :: lognew(k) ==> logverb(k) == "Get"
+//@ func (*Reconciler).getDaemonsetOwner
+//@   logs
+//@   requires r != nil && r.client != nil && replicaset != nil
+//@   modifies nothing
+//@   ensures result1 == nil ==> result != nil && fresh(result)
+//@   ensures only-reads: forall k int :: lognew(k) ==> logverb(k) == "Get"
+//@ func (*Reconciler).updateReplicaSet
+//@   logs
+//@   requires r != nil && r.client != nil && replicaset != nil && newStatus != nil
+//@   modifies nothing
+//@   ensures [C11] only-a-status-write: forall k int :: lognew(k) ==> logverb(k) == "StatusUpdate"
+//@             && cast(logobj(k), "*v1.ExtendedDaemonSetReplicaSet").Status.Conditions == newStatus.Conditions
+//@   ensures at-most-one: loglen() <= old(loglen()) + 1
+//@
+//@ func (*Reconciler).buildStrategyParams
+//@   trusted
+//@   logs
+//@   requires r != nil && daemonset != nil && replicaset != nil
+//@   modifies nothing
+//@   ensures only-reads: forall k int :: lognew(k) ==> logverb(k) == "List" || logverb(k) == "Get"
+//@   ensures result1 == nil ==> result != nil && fresh(result) && result.NewStatus != nil && fresh(result.NewStatus)
+//@ func (*Reconciler).applyStrategy
+//@   trusted
+//@   logs
+//@   requires r != nil && strategyParams != nil && strategyParams.NewStatus != nil
+//@   modifies strategyParams.NewStatus.Conditions, elems(strategyParams.NewStatus.Conditions), mapof(strategyParams.PodByNodeName)
+//@   ensures result != nil && fresh(result) && result.NewStatus != nil && freshroot(result.NewStatus)
+//@   ensures no-pod-creation-or-deletion-by-update: forall k int :: lognew(k) ==> logverb(k) == "List" || logverb(k) == "Patch" || logverb(k) == "Delete"
+//@
+//@ func (*Reconciler).Reconcile
+//@   logs
+//@   requires r != nil && r.client != nil && r.failedPodsBackOff != nil
+//@   modifies nothing
+//@   ensures [C09,C11] pod-operations-come-before-the-status-write: forall k int, j int :: lognew(k) && lognew(j) && logverb(k) == "StatusUpdate"
+//@             && (logverb(j) == "Create" || logverb(j) == "Delete") ==> j < k
+//@   ensures [C11] at-most-one-status-write-and-it-is-last: forall k int :: lognew(k) && logverb(k) == "StatusUpdate" ==> k == loglen() - 1
